@@ -476,6 +476,16 @@ fn dribble_precheck(replay: &Option<String>) -> Option<i32> {
     };
     if let Some(path) = replay {
         let v = std::fs::read_to_string(path).ok().and_then(|s| serde_json::from_str::<serde_json::Value>(&s).ok())?;
+        if v["site"] == "scripted-acceptance" {
+            let scases = ls::scripted_cases();
+            let c = scases.get(v["index"].as_u64().unwrap_or(0) as usize)?;
+            return Some(match crate::report::guard(|| ls::run_scripted(c)) {
+                Ok(Ok(())) => { println!("replay: {} - held", c.label()); 0 },
+                Ok(Err(e)) if e.starts_with("MACHINERY") => { eprintln!("{e}"); 4 },
+                Ok(Err(e)) => { println!("VIOLATION property=C06 replay={path}\n  witness: {}: {e}", c.label()); 1 },
+                Err(p) => { println!("VIOLATION property=C06 replay={path}\n  witness: {}: panicked: {p}", c.label()); 1 },
+            });
+        }
         if v["site"] != "dribble-writes" { return None; }
         let idx = v["index"].as_u64().unwrap_or(0) as usize;
         let c = cases.get(idx)?;
@@ -496,6 +506,20 @@ fn dribble_precheck(replay: &Option<String>) -> Option<i32> {
         }
     }
     eprintln!("C06 dribble-writes: {} executions", cases.len());
+    // scripted acceptance: two large frames and a TINY, the first four transport calls accepting a scripted number of bytes
+    let scases = ls::scripted_cases();
+    let sres: Vec<Result<Result<(), String>, String>> = scases.par_iter().map(|c| crate::report::guard(|| ls::run_scripted(c))).collect();
+    for (idx, (c, r)) in scases.iter().zip(sres).enumerate() {
+        let what = match r { Ok(Ok(())) => continue, Ok(Err(e)) if e.starts_with("MACHINERY") => { eprintln!("{e}"); return Some(4); }, Ok(Err(e)) => e, Err(p) => format!("panicked: {p}") };
+        let path = format!("/verif/replays/C06/scripted-acceptance-{idx}.json");
+        println!("VIOLATION property=C06 replay={path}");
+        println!("  signature: C06|scripted-acceptance|{}|{}", if c.tokio { "tokio" } else { "blocking" }, c.name);
+        println!("  witness:   {}: {what}", c.label());
+        let _ = std::fs::create_dir_all("/verif/replays/C06");
+        let _ = std::fs::write(&path, json!({"property": "C06", "site": "scripted-acceptance", "index": idx, "case": c.label()}).to_string());
+        return Some(1);
+    }
+    eprintln!("C06 scripted-acceptance: {} executions", scases.len());
     None
 }
 
@@ -506,7 +530,8 @@ pub fn c06(tier: Tier, replay: Option<String>) -> i32 {
         "instances = (mode, implementation, packet sequence of length <= 2 (quick) / <= 3 (thorough) over {TINY 4 B, SMALL 8 B, MSO 12 B, MST 68 B, MCI 228 B}); at every transport write call every acceptance k in 1..=offered (offered <= 12) or {1,2,3,4,n/2,n-1,n}; not ready (tokio Pending / blocking Interrupted, <= 2) and 30 s clock steps (tokio, <= 2); plus every kind's B1 packet and the largest frames of every counted kind (up to 1016 B) followed by a TINY; oracle on every transition: outbound bytes are a prefix of the concatenated frames and complete when write() returns Ok",
         vec!["the expected frames come from Codec::encode (judged by C01-C03)".into(),
             "many-keep-alives-and-writes (4 connections, one execution each, before the search): 175 000 frames in with 70 000 keep-alives, 105 000 writes; the transport must have received exactly the replies and the written frames in call order".into(),
-            "dribble-writes (one execution each, before the search): every kind's B1 packet and the largest frames of every counted kind (252, ~600, 1016 bytes, the protocol maximum) through a transport that takes 1 / 2 / 3 / 7 bytes per call all the way, or 1 byte with 'not ready' before every call - the search itself merges states on the bytes written and so executes only the shortest way to each".into()])
+            "dribble-writes (one execution each, before the search): every kind's B1 packet and the largest frames of every counted kind (252, ~600, 1016 bytes, the protocol maximum) through a transport that takes 1 / 2 / 3 / 7 bytes per call all the way, or 1 byte with 'not ready' before every call - the search itself merges states on the bytes written and so executes only the shortest way to each".into(),
+            "scripted-acceptance (one execution each, before the search): the largest AXM / MCI / NLP frames (252, ~600, 1016 bytes) written twice and a TINY, the first four transport calls accepting each of {everything, 1, 100, 256, 300, half, all but one} bytes (7^4 scripts), everything afterwards".into()])
 }
 
 // ---------------------------------------------------------------------------------------------
